@@ -95,10 +95,26 @@ pub fn push_scalar<N: Nondet>(n: &mut N, d: &mut SD) -> usize {
 /// base cells (two scalars of symbolic tag, a pair over them), then the left operand of tag `lt`
 /// (LT_SCALAR: one more scalar), then one more cell of fully symbolic tag; returns (data, left)
 pub fn fixture<N: Nondet>(n: &mut N, lt: usize) -> (SD, usize) {
-    fixture_impl(n, lt)
+    fixture_impl(n, lt, LT_SCALAR, LT_SCALAR)
 }
 
-fn fixture_impl<N: Nondet>(n: &mut N, lt: usize) -> (SD, usize) {
+/// a scalar cell of the CONCRETE tag `tag` with symbolic payload
+pub fn push_scalar_of<N: Nondet>(n: &mut N, d: &mut SD, tag: T) -> usize {
+    let c = Cell { tag, a: n.usize(), b: 0, num: SimpleNumber::Integer(n.i32()), sym: n.u64(), ty: any_tag(n) };
+    let i = d.n_cells;
+    d.cells[i] = c;
+    d.n_cells = i + 1;
+    let ok = cell_valid(d, i, 0);
+    n.assume(ok);
+    i
+}
+
+/// like `fixture`, with the two base cells of the concrete types TAGS[leaf0], TAGS[leaf1] (LT_SCALAR = symbolic)
+pub fn fixture_leaves<N: Nondet>(n: &mut N, lt: usize, leaf0: usize, leaf1: usize) -> (SD, usize) {
+    fixture_impl(n, lt, leaf0, leaf1)
+}
+
+fn fixture_impl<N: Nondet>(n: &mut N, lt: usize, leaf0: usize, leaf1: usize) -> (SD, usize) {
     let mut d: SD = BoundedData::new();
     // symbolic pools (list-like values of the fixture live here)
     let mut j = 0;
@@ -128,8 +144,16 @@ fn fixture_impl<N: Nondet>(n: &mut N, lt: usize) -> (SD, usize) {
     d.n_jumps = JUMPS;
     d.jumps = [1; JUMPS];
 
-    push_scalar(n, &mut d);
-    push_scalar(n, &mut d);
+    if leaf0 < 20 {
+        push_scalar_of(n, &mut d, TAGS[leaf0]);
+    } else {
+        push_scalar(n, &mut d);
+    }
+    if leaf1 < 20 {
+        push_scalar_of(n, &mut d, TAGS[leaf1]);
+    } else {
+        push_scalar(n, &mut d);
+    }
     let mut p = Cell::of(T::Pair);
     p.a = n.usize_below(2);
     p.b = n.usize_below(2);
